@@ -8,6 +8,11 @@ The builders read session state (the parsed server capabilities and their parame
 A history = {'profile', 'server_wd' (the with-defaults capability URI tail the server advertises, or None), 'steps': [step...]};
 a step is a C07 case ({'op','args'}) or a vendor case ({'vop','args'}), optionally {'iter': {'key', 'as'}}: the list argument
 `key` is handed over as a one-shot iterable (generator / iterator) or a tuple.
+A step may also be a GENERIC call {'gen': method name, 'pos': [positional arguments]}: a Manager method name that is no standard and no
+vendor operation (`m.request_system_snapshot('slice')`), which the library turns into an <rpc> whose operation element is the name
+with '_' -> '-' and whose parameter elements are the positional arguments. Any step may carry 'kept': true: the call goes through the
+BOUND CALLABLE of that method name looked up ONCE on this manager (`f = m.request_system_snapshot`, at the first kept step of that
+name) and kept - `f('slice'); f('media', 'partition'); f()` - where a step without it does a new attribute lookup.
 
 Oracles (none of them looks at the implementation):
  * caps_frame   - `m.server_capabilities` (URIs, and for each the namespace URI and the parameters), read before the first call and
@@ -16,6 +21,11 @@ Oracles (none of them looks at the implementation):
                   set (basic-mode + also-supported of THIS server, split here) in the place of the four modes of the standard server;
  * independence - outcome (exception class, request tree with the message-id blanked) of step i == outcome of the same call issued
                   FIRST on a fresh manager with the same profile and server capabilities (sig call_depends_on_history);
+ * generic      - a generic call sends one <rpc> (base namespace, message-id) with ONE operation element named as the method with
+                  '_' -> '-', no attributes, whose children are exactly THIS call's positional arguments, in order, each an empty
+                  element in the operation's namespace; a name / argument that is no XML NCName is refused with nothing sent
+                  (sig generic_call_not_faithful); kept or not, the independence oracle applies as well: a kept callable sends what
+                  a new lookup on a fresh manager sends;
  * one-shot     - a call given a generator / iterator / tuple sends what the call given the list sends (sig one_shot_iterable).
 """
 import json, re
@@ -97,9 +107,59 @@ def gen_wd_value(rng, h):
 def std_ok(profile, op):
     return not ((profile == 'junos' and op in ('rpc', 'commit')) or (profile == 'sros' and op == 'commit') or op == 'close_session')
 
+GEN_NAMES = ['request_system_snapshot', 'get_chassis_inventory', 'get_software_information', 'show_version', 'clear_arp_table', 'ping', 'x',
+             'get_\u00e9tat', 'a__b', 'request_shell_execute_9']
+GEN_ARGS = ['slice', 'media', 'partition', 'detail', 'brief', 'terse', 'extensive', 'no-forwarding', 'x.y', '_u', '\u00e9', 'A' * 40]
+GEN_BAD_ARGS = ['a b', '', '1x', '<x/>', 'a:b', '-a', 'a\n', 'x>', '&amp;']
+KEPT_STD = ['get_config', 'get', 'lock', 'unlock', 'edit_config', 'validate', 'delete_config', 'discard_changes']
+
+def generic_ok(profile, name):
+    """the name is no standard operation and no operation the profile ships (tables of this harness, not of the library)"""
+    G, V = c07(), vops()
+    return name not in G.OPS and (profile, name) not in V.VOPS and name not in ('rpc', 'commit', 'command', 'reboot', 'halt', 'rollback', 'save', 'load', 'action', 'cli')
+
+def gen_generic(rng, profile, name=None):
+    if name is None:
+        while True:
+            name = rng.choice(GEN_NAMES)
+            if generic_ok(profile, name): break
+    n = rng.choice([0, 1, 1, 2, 2, 3])
+    pos = [rng.choice(GEN_ARGS) for _ in range(n)]                  # repeated arguments are legal (<a/><a/>)
+    if pos and rng.random() < 0.08: pos[rng.randrange(len(pos))] = rng.choice(GEN_BAD_ARGS)
+    return {'gen': name, 'pos': pos}
+
+def method_of(profile, step):
+    if 'gen' in step: return step['gen']
+    if 'vop' in step: return to_python(profile, step, plain=True)[0]
+    return step['op']
+
+def gen_kept_history(rng, h):
+    """one or two method names whose bound callable is kept and called several times, mixed with new lookups of the same names"""
+    G = c07()
+    profile = h['profile']
+    names = []
+    for _ in range(rng.choice([1, 1, 2])):
+        if rng.random() < 0.65:
+            names.append(('gen', gen_generic(rng, profile)['gen']))
+        else:
+            while True:
+                op = rng.choice(KEPT_STD)
+                if std_ok(profile, op): break
+            names.append(('op', op))
+    for i in range(rng.randint(3, 6)):
+        kind, name = rng.choice(names)
+        if kind == 'gen': st = gen_generic(rng, profile, name)
+        else:
+            st = G.gen_case(rng, name)
+            if name in ('get', 'get_config') and st['args'].get('with_defaults') is not None: st['args']['with_defaults'] = gen_wd_value(rng, h)
+        if rng.random() < 0.8: st['kept'] = True
+        h['steps'].append(st)
+    return h
+
 def gen_step(rng, h, theme):
     G, V = c07(), vops()
     profile = h['profile']
+    if rng.random() < 0.12: return gen_generic(rng, profile)
     r = rng.random()
     if theme == 'wd': kind = 'wd' if r < 0.8 else rng.choice(['filter', 'edit', 'any', 'vendor'])
     else: kind = rng.choice(['wd', 'wd', 'filter', 'edit', 'edit', 'any', 'any', 'vendor', 'vendor', 'vendor'])
@@ -131,10 +191,18 @@ def gen_step(rng, h, theme):
 
 def gen_history(rng, profile):
     h = {'profile': profile, 'server_wd': gen_wd_uri(rng), 'steps': []}
-    theme = rng.choice(['wd', 'wd', 'mixed', 'mixed', 'mixed'])
+    theme = rng.choice(['wd', 'wd', 'mixed', 'mixed', 'mixed', 'kept', 'kept'])
+    if theme == 'kept': return gen_kept_history(rng, h)
     for i in range(rng.randint(3, 6)):
         if h['steps'] and rng.random() < 0.25: h['steps'].append(json.loads(json.dumps(rng.choice(h['steps']))))       # the same call again
         else: h['steps'].append(gen_step(rng, h, theme))
+    seen = set()
+    for st in h['steps']:                                         # a method called more than once: sometimes through ONE kept callable
+        mth = method_of(profile, st)
+        if mth in seen and rng.random() < 0.5:
+            for x in h['steps']:
+                if method_of(profile, x) == mth: x['kept'] = True
+        seen.add(mth)
     return h
 
 def gen_histories(rng, tier):
@@ -154,6 +222,24 @@ def fixed_histories():
                 if k % 2: steps.append({'op': 'get_config', 'args': {'source': 'running', 'filter': None, 'with_defaults': mode}})
                 else: steps.append({'op': 'get', 'args': {'filter': None, 'with_defaults': mode}})
             out.append({'profile': profile, 'server_wd': wd, 'steps': steps[:6]})
+    wd = 'with-defaults:1.0?basic-mode=explicit&also-supported=report-all,trim'
+    for profile in ('default', 'junos', 'nexus', 'iosxe', 'alu'):
+        # f = m.request_system_snapshot; f('slice'); f('slice'); f('media', 'partition'); f(); f('a', 'b', 'c'); m.request_system_snapshot('slice')
+        out.append({'profile': profile, 'server_wd': wd, 'steps': [
+            {'gen': 'request_system_snapshot', 'pos': p, 'kept': k} for p, k in
+            ((['slice'], True), (['slice'], True), (['media', 'partition'], True), ([], True), (['a', 'b', 'c'], True), (['slice'], False))]})
+        out.append({'profile': profile, 'server_wd': wd, 'steps': [
+            {'gen': 'get_chassis_inventory', 'pos': [], 'kept': True}, {'gen': 'get_chassis_inventory', 'pos': ['detail'], 'kept': True},
+            {'gen': 'show_version', 'pos': ['brief'], 'kept': True}, {'gen': 'get_chassis_inventory', 'pos': [], 'kept': True},
+            {'gen': 'show_version', 'pos': [], 'kept': True}]})
+        # g = m.get_config, kept: every request carries its own source / filter / with-defaults only
+        f1 = {'kind': 'subtree', 'as': 'str', 'xml': '<interfaces xmlns="urn:x"><interface/></interfaces>'}
+        out.append({'profile': profile, 'server_wd': wd, 'steps': [
+            {'op': 'get_config', 'kept': True, 'args': {'source': 'running', 'filter': f1, 'with_defaults': 'trim'}},
+            {'op': 'get_config', 'kept': True, 'args': {'source': 'candidate', 'filter': None, 'with_defaults': None}},
+            {'op': 'get_config', 'kept': True, 'args': {'source': 'startup', 'filter': {'kind': 'xpath', 'select': '/a/b'}, 'with_defaults': 'report-all'}},
+            {'op': 'get_config', 'kept': True, 'args': {'source': 'running', 'filter': None, 'with_defaults': None}},
+            {'op': 'lock', 'kept': True, 'args': {'target': 'candidate'}}, {'op': 'lock', 'kept': True, 'args': {'target': 'running'}}]})
     return out
 
 # ---------------- running ----------------
@@ -165,6 +251,7 @@ def one_shot(v, how):
 
 def to_python(profile, step, plain=False):
     G, V = c07(), vops()
+    if 'gen' in step: return step['gen'], {}
     if 'vop' in step:
         method, kw = V.to_python(dict(step, profile=profile))
         it = step.get('iter')
@@ -182,16 +269,66 @@ def canon(r):
         except Exception: sent.append(re.sub(r'message-id="[^"]*"', 'message-id=""', x))
     return {'exc': r['exc'], 'sent': sent}
 
+def pos_of(step): return tuple(step['pos']) if 'gen' in step else ()
+
+def call_through(m, sess, f, args=(), kwargs=None):
+    """capture.call with the callable given (a bound callable looked up earlier and kept) instead of a method name"""
+    from harness import capture
+    caps = sess._server_capabilities
+    n0, l0, r0 = len(sess.sent), len(caps.log), sess.registered()
+    exc = None; ret = None
+    try: ret = f(*args, **(kwargs or {}))
+    except Exception as e: exc = capture.exc_name(e)
+    return dict(exc=exc, sent=sess.sent[n0:], log=caps.log[l0:], registered=sess.registered() - r0, msgid=getattr(ret, '_id', None))
+
 def fresh_call(h, step, plain=True):
+    '''the same call issued first on a fresh manager, through a NEW attribute lookup'''
     from harness import capture
     m, s = capture.make_manager(h['profile'], server_caps(h))
     method, kw = to_python(h['profile'], step, plain=plain)
-    return capture.call(m, s, method, kwargs=kw)
+    return capture.call(m, s, method, args=pos_of(step), kwargs=kw)
+
+NCNAME = re.compile(r'[^\W\d][\w.\-]*\Z', re.UNICODE)          # no colon; letters / '_' first (the names generated here: ASCII, Latin-1 letters)
+
+def oracle_generic(h, step, r):
+    """the property sentence on a generic call: ONE well-formed <rpc> (base namespace, message-id) with a single operation element
+    named after the method, whose parameter elements are exactly this call's positional arguments, in order"""
+    from harness import capture
+    G = c07()
+    sig = 'generic_call_not_faithful'
+    name = step['gen'].replace('_', '-')
+    pos = list(step['pos'])
+    bad = [x for x in [name] + pos if not (isinstance(x, str) and NCNAME.match(x))]
+    if bad:
+        if r['sent']: return ('%r is no XML name, yet %d message(s) were sent: %s' % (bad[0], len(r['sent']), r['sent'][0][-200:]), sig)
+        if r['exc'] is None: return ('%r is no XML name: no exception' % (bad[0],), sig)
+        return None
+    if r['exc'] is not None: return ('%s(%s) raised %s' % (step['gen'], ', '.join(map(repr, pos)), r['exc']), sig)
+    if len(r['sent']) != 1: return ('%d messages sent for one call' % len(r['sent']), sig)
+    try: t = capture.read_independent(r['sent'][0])
+    except Exception as e: return ('the request is not well-formed: %s' % e, sig)
+    if (t[1], t[2]) != (G.B, 'rpc'): return ('the document element is {%s}%s, not <rpc> in the base namespace' % (t[1], t[2]), sig)
+    mids = [a for a in t[3] if (a[0], a[1]) == ('', 'message-id')]
+    if len(mids) != 1 or not mids[0][2]: return ('<rpc> without a message-id', sig)
+    if len(t[3]) != 1: return ('<rpc> carries attributes the caller did not give: %r' % (t[3],), sig)
+    if len(t[4]) != 1 or t[4][0][0] != 'E': return ('<rpc> does not have exactly one operation element and nothing else: %r' % ([c[:3] for c in t[4]],), sig)
+    o = t[4][0]
+    if o[2] != name: return ('the operation element is <%s>, the method name gives <%s>' % (o[2], name), sig)
+    if o[1] not in ('', G.B): return ('the operation element is in namespace %r' % o[1], sig)
+    if o[3]: return ('the operation element carries attributes: %r' % (o[3],), sig)
+    got = [(c[1], c[2]) if c[0] == 'E' else ('#text', c[1]) for c in o[4]]
+    want = [(o[1], a) for a in pos]
+    if got != want: return ('the parameter elements are %s; this call\'s arguments are %s' % ([g[1] for g in got], pos), sig)
+    for c in o[4]:
+        if c[3] or c[4]: return ('parameter element <%s> is not empty: %r' % (c[2], c[3:]), sig)
+    return None
 
 def absolute(h, step, r):
     """single-call oracle of the property on one step; the advertised with-defaults set is this server's"""
     G, V = c07(), vops()
     profile = h['profile']
+    if 'gen' in step: return oracle_generic(h, step, r)
+    step = {k: v for k, v in step.items() if k != 'kept'}
     if 'vop' in step: return V.oracle(dict(step, profile=profile), r)
     case = dict(step, profile=profile)
     a = step['args']
@@ -214,9 +351,13 @@ def judge_history(h, upto=None):
     if s0 != want:
         return [(-1, 'the parsed server capabilities are not the advertised ones before any call', 'session_capabilities_altered', want, s0)], recs
     steps = h['steps'] if upto is None else h['steps'][:upto + 1]
+    kept = {}                                                     # method name -> the bound callable looked up at its first kept step
     for i, step in enumerate(steps):
         method, kw = to_python(h['profile'], step)
-        r = capture.call(m, s, method, kwargs=kw)
+        if step.get('kept'):
+            if method not in kept: kept[method] = getattr(m, method)
+            r = call_through(m, s, kept[method], pos_of(step), kw)
+        else: r = capture.call(m, s, method, args=pos_of(step), kwargs=kw)
         after = norm_snap(snapshot(m))
         ref = fresh_call(h, step)
         recs.append((r, ref))
@@ -228,8 +369,8 @@ def judge_history(h, upto=None):
         if canon(r) != canon(ref):
             sig = 'call_depends_on_history'
             if step.get('iter') and (i == 0 or canon(fresh_call(h, step, plain=False)) != canon(ref)): sig = 'one_shot_iterable'       # the iterable alone explains it
-            out.append((i, 'call #%d (%s) on a session that already made %d call(s): outcome differs from the same call issued first on a fresh session of the same server'
-                        % (i + 1, method, i), sig, canon(ref), canon(r)))
+            out.append((i, 'call #%d (%s%s) on a session that already made %d call(s): outcome differs from the same call issued first on a fresh session of the same server'
+                        % (i + 1, method, ', through the bound callable looked up once and kept' if step.get('kept') else '', i), sig, canon(ref), canon(r)))
         j = absolute(h, step, r)
         if j: out.append((i, 'call #%d (%s) of a history: %s' % (i + 1, method, j[0]), j[1], 'schema instance carrying the caller data / local rejection',
                           {'exc': r['exc'], 'sent': [x[:400] for x in r['sent']]}))
@@ -302,7 +443,11 @@ def run_histories(ctx, hs):
                 if io != mo[i]:
                     ctx.disagree({'history': json.loads(key_of(dict(h, steps=h['steps'][:i + 1])))}, mo[i], io,
                                  'CallHistory.history vs call #%d of a history on one Manager' % (i + 1), theorem='C07_history_independent')
-            ctx.hist('history_step', step.get('op') or ('vendor:' + step['vop']))
+            ctx.hist('history_step', step.get('op') or ('generic' if 'gen' in step else 'vendor:' + step['vop']))
+            if 'gen' in step: ctx.hist('history_generic', '%s, %d argument(s)%s' % (h['profile'] if h['profile'] in ('default', 'junos', 'nexus') else 'other profile', len(step['pos']), ', kept callable' if step.get('kept') else ''))
+            if step.get('kept'):
+                nth = sum(1 for x in h['steps'][:i] if x.get('kept') and method_of(h['profile'], x) == method_of(h['profile'], step))
+                ctx.hist('history_kept_callable', '%s use #%s' % ('generic' if 'gen' in step else 'vendor' if 'vop' in step else step['op'], nth + 1 if nth < 3 else '4+'))
             ctx.hist('history_step_outcome', ('#1 ' if i == 0 else '#n ') + (r['exc'] or 'sent'))
             wd = step['args'].get('with_defaults') if 'op' in step else None
             if isinstance(wd, str) and i > 0:
